@@ -36,7 +36,9 @@ vars == <<db, chain, snap, sy, err>>
 NoSnap == [some |-> FALSE, ver |-> 0, tasks |-> EmptyDb, trim |-> 0]
 NoReq  == -1
 Idle   == [pc |-> "idle", tt |-> EmptyDb, tb |-> 0, cur |-> <<>>, orig |-> <<>>,
-           pos |-> 1, req |-> NoReq, av |-> FALSE]
+           pos |-> 1, req |-> NoReq, av |-> FALSE, acc |-> <<>>]
+   \* acc: the transformed server operations applied so far (stored as synchronised operations
+   \* at the end of the sync: the per-task operation history, get_task_operations)
 
 Pinned == "PIN" \in Dev
 
@@ -106,7 +108,8 @@ SyncPull(r) ==
   /\ LET s == sy[r] IN
      IF s.tb < Len(chain) /\ s.tb >= snap.trim      \* the child exists and was not discarded
      THEN LET rb == RebaseVersion(chain[s.tb + 1], s.cur, s.tt, <<>>)
-          IN sy' = [sy EXCEPT ![r] = [s EXCEPT !.cur = rb.l, !.tt = rb.t, !.tb = s.tb + 1]]
+          IN sy' = [sy EXCEPT ![r] = [s EXCEPT !.cur = rb.l, !.tt = rb.t, !.tb = s.tb + 1,
+                                                !.acc = s.acc \o rb.s]]
      ELSE sy' = [sy EXCEPT ![r] = [s EXCEPT !.pc = IF s.cur = <<>> THEN "commit" ELSE "push"]]
   /\ UNCHANGED <<db, chain, snap, err>>
 
